@@ -18,6 +18,8 @@ case (op = "run"):
    "u0": first label of the batch (t0 <= u0 <= t0+n: re-states stored observations and/or continues them;
          default t0+n), "uy": [v], "uX": None | rows
    "dtype": float64|float32|int64|int32 dtype of y, "xdtype": same for X (values are integer-valued)
+   "layout": contig|stride2|dfcol|revrev memory layout of y (and of the update block),
+   "xlayout": contig|fortran|stride2|widecols memory layout of X (fit, update, predict); also on op = "swt"
    "Xp": None | rows}           X passed to predict
 case (op = "swt"): {"op": "swt", "sci": tab|ts, "wl": ..., "fh": [int], "y": [v], "X": None|rows}
    calls `_sliding_window_transform` directly.
@@ -286,16 +288,77 @@ def _fv(v):
     return {"nan": float("nan"), "inf": float("inf"), "-inf": float("-inf")}[v] if isinstance(v, str) else float(v)
 
 
-def _series(vals, t0, dtype="float64"):
-    return pd.Series([_fv(v) for v in vals], index=pd.RangeIndex(t0, t0 + len(vals)), dtype="float64").astype(dtype)
+YLAYOUTS = ["contig", "stride2", "dfcol", "revrev"]
+XLAYOUTS = ["contig", "fortran", "stride2", "widecols"]
+_JUNK = 9000000.0        # what sits in the neighbouring memory cells of a non-contiguous series
 
 
-def _frame(rows, t0, ncols=None, dtype="float64"):
+def _lay1(arr, layout):
+    """1-d array with the given values and memory layout (a view that is NOT a fresh contiguous array)"""
+    n = len(arr)
+    if layout == "stride2":
+        buf = np.full(2 * n, _JUNK, dtype=arr.dtype)
+        buf[::2] = arr
+        return buf[::2]
+    if layout == "revrev":
+        return arr[::-1].copy()[::-1]                   # negative stride
+    return arr
+
+
+def _lay2(arr, layout):
+    n, nc = arr.shape
+    if layout == "fortran":
+        return np.asfortranarray(arr)
+    if layout == "stride2":
+        buf = np.full((2 * n, nc), _JUNK, dtype=arr.dtype)
+        buf[::2] = arr
+        return buf[::2]
+    if layout == "widecols":
+        buf = np.full((n, 2 * nc + 1), _JUNK, dtype=arr.dtype)
+        buf[:, 1::2] = arr
+        return buf[:, 1::2]
+    return np.ascontiguousarray(arr)
+
+
+def _series(vals, t0, dtype="float64", layout="contig"):
+    arr = np.array([_fv(v) for v in vals], dtype="float64").astype(dtype)
+    idx = pd.RangeIndex(t0, t0 + len(vals))
+    if layout == "dfcol":
+        # a column of a data frame built from a row-major 2-d array
+        table = np.full((len(arr), 3), _JUNK, dtype=arr.dtype)
+        table[:, 1] = arr
+        col = pd.DataFrame(table, index=idx, columns=["a", "y", "b"], copy=False)["y"]
+        col.name = None                    # (.rename would copy into contiguous memory)
+        return col
+    return pd.Series(_lay1(arr, layout), index=idx, copy=False)
+
+
+def _frame(rows, t0, ncols=None, dtype="float64", layout="contig"):
     if rows is None:
         return None
     nc = len(rows[0]) if rows else (ncols or 0)
-    arr = np.array([[_fv(v) for v in r] for r in rows], dtype="float64").reshape(len(rows), nc)
-    return pd.DataFrame(arr, index=pd.RangeIndex(t0, t0 + len(rows)), columns=["x%d" % i for i in range(nc)]).astype(dtype)
+    arr = np.array([[_fv(v) for v in r] for r in rows], dtype="float64").reshape(len(rows), nc).astype(dtype)
+    return pd.DataFrame(_lay2(arr, layout), index=pd.RangeIndex(t0, t0 + len(rows)), columns=["x%d" % i for i in range(nc)], copy=False)
+
+
+_LAYOUT_OK = [False]
+
+
+def _layout_selftest():
+    """harness sanity (not part of any verdict): the layouts above really reach sktime as non-contiguous memory"""
+    if _LAYOUT_OK[0]:
+        return
+    vals = [1, 2, 3, 4, 5, 6]
+    for lay in YLAYOUTS[1:]:
+        a = _series(vals, 0, "float64", lay).to_numpy()
+        if a.strides == (8,) or a.tolist() != [float(v) for v in vals]:
+            raise RuntimeError("harness: y layout %s is not preserved by pandas (strides %r)" % (lay, a.strides))
+    rows = [[1, 2], [3, 4], [5, 6]]
+    for lay in XLAYOUTS[1:]:
+        a = _frame(rows, 0, dtype="float64", layout=lay).to_numpy()
+        if a.flags.c_contiguous or a.tolist() != [[1.0, 2.0], [3.0, 4.0], [5.0, 6.0]]:
+            raise RuntimeError("harness: X layout %s is not preserved by pandas" % lay)
+    _LAYOUT_OK[0] = True
 
 
 def _u0(c):
@@ -357,6 +420,7 @@ _SCI_NAME = {"tab": "tabular-regressor", "ts": "time-series-regressor", "infer":
 
 
 def run_real(c):
+    _layout_selftest()
     if c["op"] == "swt":
         return _run_swt(c)
     from sktime.forecasting.compose import make_reduction
@@ -367,20 +431,21 @@ def run_real(c):
         reg = _classes()[c["reg"]](log_id=lid)
         n = len(c["y"])
         dt, xdt = c.get("dtype", "float64"), c.get("xdtype", "float64")
-        y = _series(c["y"], c["t0"], dt)
-        X = _frame(c["X"], c["t0"], dtype=xdt)
+        lay, xlay = c.get("layout", "contig"), c.get("xlayout", "contig")
+        y = _series(c["y"], c["t0"], dt, lay)
+        X = _frame(c["X"], c["t0"], dtype=xdt, layout=xlay)
         f = make_reduction(reg, strategy=c["strategy"], window_length=_wl_value(c["wl"]), scitype=_SCI_NAME[c["scitype"]])
         f.fit(y, X, fh=None if c["fh"] is None else list(c["fh"]))
         if c["upd"] != "no":
             stage = "update"
-            uy = _series(c["uy"], _u0(c), dt)
-            uX = _frame(c["uX"], _u0(c), ncols=(len(c["X"][0]) if c["X"] else None), dtype=xdt)
+            uy = _series(c["uy"], _u0(c), dt, lay)
+            uX = _frame(c["uX"], _u0(c), ncols=(len(c["X"][0]) if c["X"] else None), dtype=xdt, layout=xlay)
             if c["upd"] in ("up", "uprefit"):
                 f.update_predict(uy, update_params=(c["upd"] == "uprefit"))
             else:
                 f.update(uy, uX, update_params=(c["upd"] == "refit"))
         stage = "predict"
-        Xp = _frame(c["Xp"], int(f.cutoff) + 1, dtype=xdt)
+        Xp = _frame(c["Xp"], int(f.cutoff) + 1, dtype=xdt, layout=xlay)
         yp = f.predict(None if c["fhp"] is None else list(c["fhp"]), X=Xp)
         res = "-" if len(yp) == 0 else ",".join("%d:%s" % (int(l), _sv(v)) for l, v in zip(yp.index, yp.values))
     except Exception as e:
@@ -394,8 +459,8 @@ def _run_swt(c):
     from sktime.forecasting.compose._reduce import _sliding_window_transform
     from sktime.forecasting.base import ForecastingHorizon
     try:
-        y = _series(c["y"], 0)
-        X = _frame(c["X"], 0)
+        y = _series(c["y"], 0, c.get("dtype", "float64"), c.get("layout", "contig"))
+        X = _frame(c["X"], 0, dtype=c.get("xdtype", "float64"), layout=c.get("xlayout", "contig"))
         fh = ForecastingHorizon(list(c["fh"]), is_relative=True)
         yt, Xt = _sliding_window_transform(y, _wl_value(c["wl"]), fh, X, scitype=_SCI_NAME[c["sci"]])
         return "yt=%s Xt=%s" % (_srows(np.asarray(yt)), _sX(Xt))
@@ -981,7 +1046,7 @@ DTYPES = ["float64", "int64", "float32", "int32"]
 
 
 def _run_case(rng, strategy, n, wl, fh, nc=0, reg=None, scitype=None, t0=None, upd="no", ulen=0, fhp="same", xp="auto",
-              nan_at=None, dup=False, overlap=0, dtype="float64", xdtype="float64"):
+              nan_at=None, dup=False, overlap=0, dtype="float64", xdtype="float64", layout="contig", xlayout="contig"):
     """overlap = how many stored labels the update block re-states (u0 = t0 + n - overlap)"""
     reg = reg or rng.choice(["tab", "ts"])
     scitype = scitype or rng.choice(["infer", "infer", "tab", "ts"])
@@ -1006,7 +1071,8 @@ def _run_case(rng, strategy, n, wl, fh, nc=0, reg=None, scitype=None, t0=None, u
     overlap = min(overlap, n)
     c = {"op": "run", "strategy": strategy, "reg": reg, "scitype": scitype, "wl": wl,
          "fh": fh, "fhp": (fh if fhp == "same" else fhp), "t0": t0, "y": y, "X": X,
-         "upd": upd, "u0": t0 + n - overlap, "uy": uy, "uX": uX, "Xp": None, "dtype": dtype, "xdtype": xdtype}
+         "upd": upd, "u0": t0 + n - overlap, "uy": uy, "uX": uX, "Xp": None, "dtype": dtype, "xdtype": xdtype,
+         "layout": layout, "xlayout": xlayout}
     if xp == "auto":
         if strategy == "recursive" and nc > 0:
             eff = c["fhp"] if c["fhp"] is not None else fh
@@ -1042,7 +1108,8 @@ def gen_cases(tier, rng):
                             cases.append(_run_case(rng, strategy, n, wl, list(fh), nc=nc, reg=reg,
                                                    scitype=("infer" if k % 2 else sci),
                                                    fhp=("same" if k % 4 else None),
-                                                   dtype=DTYPES[(k // 3) % 4], xdtype=DTYPES[(k // 5) % 4]))
+                                                   dtype=DTYPES[(k // 3) % 4], xdtype=DTYPES[(k // 5) % 4],
+                                                   layout=YLAYOUTS[(k // 2) % 4], xlayout=XLAYOUTS[(k // 7) % 4]))
     # ---- (1b) the transform itself, exhaustive small scope
     k = 0
     for n in range(1, 13):
@@ -1053,7 +1120,8 @@ def gen_cases(tier, rng):
                         k += 1
                         if quick and (k + rot) % 3 != 0:
                             continue
-                        cases.append({"op": "swt", "sci": sci, "wl": wl, "fh": list(fh), "y": _vals(rng, n), "X": _mkX(rng, n, nc, 1000)})
+                        cases.append({"op": "swt", "sci": sci, "wl": wl, "fh": list(fh), "y": _vals(rng, n), "X": _mkX(rng, n, nc, 1000),
+                                      "layout": YLAYOUTS[k % 4], "xlayout": XLAYOUTS[(k // 4) % 4], "dtype": DTYPES[(k // 5) % 4]})
     # ---- (2) structured random, mostly valid, n up to 200
     nr = 2000 if quick else 30000
     for _ in range(nr):
@@ -1117,7 +1185,8 @@ def gen_cases(tier, rng):
                 nan_at = [("y", rng.randrange(0, max(1, n - wl)), tokv)]
         c = _run_case(rng, strategy, n, wl, fhfit, nc=nc, upd=upd, ulen=max(ulen, 0), fhp=fhp, nan_at=nan_at,
                       dup=rng.random() < 0.1, reg=rng.choice(["tab", "ts", "tsmix"]), overlap=overlap,
-                      dtype=rng.choice(DTYPES + ["float64"]), xdtype=rng.choice(DTYPES + ["float64"]))
+                      dtype=rng.choice(DTYPES + ["float64"]), xdtype=rng.choice(DTYPES + ["float64"]),
+                      layout=rng.choice(YLAYOUTS + ["contig"]), xlayout=rng.choice(XLAYOUTS + ["contig"]))
         if rng.random() < 0.1 and isinstance(c["wl"], int):
             c["wl"] = "np%d" % c["wl"]
         cases.append(c)
@@ -1127,7 +1196,8 @@ def gen_cases(tier, rng):
         fh = sorted(rng.sample(range(1, 9), rng.choice([1, 2, 3])))
         n = min(wl + max(fh) + rng.choice([-1, 0, 0, 1, 2, 5, 20, int(rng.lognormvariate(3.0, 1.0))]), 200)
         nc = rng.choice([0, 1, 3])
-        cases.append({"op": "swt", "sci": rng.choice(["tab", "ts"]), "wl": wl, "fh": fh, "y": _vals(rng, max(n, 1)), "X": _mkX(rng, max(n, 1), nc, 1000)})
+        cases.append({"op": "swt", "sci": rng.choice(["tab", "ts"]), "wl": wl, "fh": fh, "y": _vals(rng, max(n, 1)), "X": _mkX(rng, max(n, 1), nc, 1000),
+                      "layout": rng.choice(YLAYOUTS), "xlayout": rng.choice(XLAYOUTS)})
     # ---- (3) malformed / outside-the-quantifier stream
     nm = 1 if quick else 4
     for _ in range(nm):
@@ -1162,6 +1232,12 @@ def gen_cases(tier, rng):
 
 
 def shrink(c):
+    if c.get("xlayout", "contig") != "contig":
+        yield dict(c, xlayout="contig")
+    if c.get("layout", "contig") not in ("contig", "stride2"):
+        yield dict(c, layout="stride2")
+    if c.get("layout", "contig") != "contig":
+        yield dict(c, layout="contig")
     if c["op"] == "swt":
         if len(c["y"]) > 1:
             yield dict(c, y=c["y"][1:], X=None if c["X"] is None else c["X"][1:])
